@@ -2073,7 +2073,7 @@ LZ4_decompress_generic(
         if (unlikely(outputSize==0)) {
             /* Empty output buffer */
             if (partialDecoding) return 0;
-            return ((srcSize==1) && (*ip==0)) ? 0 : -1;
+            return ((srcSize==1) && ((*ip>>ML_BITS)==0)) ? 0 : -1;   /* empty block : no literal (the token's match-length bits are not used in a last sequence) */
         }
         if (unlikely(srcSize==0)) { return -1; }
 
